@@ -174,6 +174,23 @@ func ruleC19(w *World, r *Report) {
 	if unmarshal == nil {
 		brokenf(P, "R19.2", "no JSON decode call found in ServeHTTP")
 	}
+	// whole-document decoding: json.Unmarshal rejects trailing data; a streaming
+	// Decoder.Decode accepts "{...} junk" unless the remainder is checked.
+	{
+		n := calleeName(unmarshal)
+		whole := n == "encoding/json.Unmarshal"
+		if !whole {
+			// accept a Decoder only when More()/Token()/a second Decode is consulted afterwards
+			allInstrs(serve, func(i ssa.Instruction) {
+				if c, ok := i.(*ssa.Call); ok && c != unmarshal {
+					if cn := calleeName(c); cn == "(*encoding/json.Decoder).More" || cn == "(*encoding/json.Decoder).Token" || cn == "(*encoding/json.Decoder).Decode" {
+						whole = true
+					}
+				}
+			})
+		}
+		r.check(whole, "R19.2", sname, "body decoded as one whole JSON document", w.Pos(unmarshal.Pos()), n, "the body is decoded with "+n+" without checking for trailing data: a malformed body whose prefix is a valid document is accepted")
+	}
 	isMethodLoad := func(v ssa.Value) bool {
 		u, ok := v.(*ssa.UnOp)
 		if !ok || u.Op != token.MUL {
@@ -436,6 +453,21 @@ func ruleC19(w *World, r *Report) {
 			}
 		})
 		r.check(n == 1, "R19.3", w.FuncName(addSlice), "one AddSliceInfo call", w.Pos(addSlice.Pos()), "1 call", fmt.Sprintf("%d calls to datapath.AddSliceInfo", n))
+		// every return except the one under sliceInfo == nil passes through the datapath call
+		for k, ret := range returnsOf(addSlice) {
+			ret := ret
+			nilArm := len(addSlice.Params) == 2 && onlyVia(addSlice, ret, func(a, b *ssa.BasicBlock) bool {
+				return nilnessEdge(a, b, func(x ssa.Value) bool { return x == ssa.Value(addSlice.Params[1]) }, true)
+			})
+			if nilArm {
+				continue
+			}
+			miss := mustPass(addSlice, nil, func(i ssa.Instruction) bool { return i == ssa.Instruction(ret) }, func(i ssa.Instruction) bool {
+				c, ok := i.(ssa.CallInstruction)
+				return ok && c.Common().IsInvoke() && c.Common().Method.Name() == "AddSliceInfo"
+			})
+			r.check(miss == nil, "R19.3", w.FuncName(addSlice), fmt.Sprintf("return #%d is preceded by the datapath call", k+1), w.Pos(ret.Pos()), "must-pass-through", "upf.addSliceInfo can return without programming the datapath (a posted slice is answered 201 but not programmed)")
+		}
 	}
 
 	// --- BESS: SliceInfo → SliceMeterConfig → QosCommandAddArg
@@ -568,6 +600,23 @@ func ruleC19SliceMeter(w *World, r *Report) {
 			fields := s.Fields()
 			good := len(fields) == 1 && fields[0] == burst
 			r.check(good, "R19.3", name, dir+" Pbs ← "+burst, w.Pos(pst.Pos()), s.String(), dir+" slice meter burst is "+s.String())
+			// the branch that selects between the posted burst and the default tests the same field
+			if phi, isPhi := pst.Val.(*ssa.Phi); isPhi {
+				agree := true
+				desc := ""
+				for i, e := range phi.Edges {
+					cond := dominatingRateTest(phi.Block().Preds[i], burst)
+					_, isK := constInt(e)
+					switch {
+					case cond == "!=0" && !isK:
+					case cond == "==0" && isK:
+					default:
+						agree = false
+						desc = fmt.Sprintf("alternative %s is not selected by a test of %s", symOf(e).String(), burst)
+					}
+				}
+				r.check(agree, "R19.3", name, dir+" Pbs selected by a test of "+burst, w.Pos(pst.Pos()), "posted burst iff it is non-zero", dir+" burst: "+desc)
+			}
 		} else {
 			r.bad("R19.3", name, dir+" Pbs", w.Pos(worker.Pos()), "Pbs not set")
 		}
